@@ -86,6 +86,23 @@ CHECKS["C10"] = dict(
     note="Trusts the recording transport and the JSON reader; the set of volatile fields is the documented one and nothing else is masked.",
     design="DESIGN.md section 4 C10")
 
+CHECKS["C04"] = dict(
+    technique="Hypothesis-generated configurations x guarded meaning-preserving YAML rewriter (metamorphic: rewrite => identical identity record) x four observation paths (differential) x child processes with different hash seed / TZ / cwd / shifted clock / processing order (cross-process differential) x re-observation after a long in-process history",
+    text=("Generated-input search (720 configs x 4 rewrites x 4 process variants quick; 6.4k configs thorough). One identity record per "
+          "configuration meaning (node UUIDs, pipeline ID, semantic ID, config ID, node semantic IDs, whole inspection payload, sorted "
+          "required keys, run-space spec ID) must be equal under every rewrite, through inspection payload / Pipeline construction / "
+          "pipeline_start (first run and reused object) / `semantiva inspect` stdout, in every process variant and at every history "
+          "position."),
+    note="Trusts PyYAML as the reference reader for the rewrite guard (type-strict reload equality) and the regexes that read `inspect` stdout.",
+    design="DESIGN.md section 4 C04")
+CHECKS["C05"] = dict(
+    technique="Hypothesis-generated configurations x exhaustive single-point semantic mutation operators at every applicable position; metamorphic inequality oracle on semantic ID, config ID and the affected node's UUID / node semantic ID; UUID distinctness invariant",
+    text=("Generated-input search (1.3k configs, ~28k (config, mutation) pairs quick; 12k configs thorough). Every identity-bearing field "
+          "named by the property has its own mutation operator (20 operators), applied wherever it applies; a mutation that leaves "
+          "semantic ID or config ID or the affected node's identity unchanged is a violation."),
+    note="Trusts the mutation guard (type-strict inequality of the configuration modulo +/* commutation).",
+    design="DESIGN.md section 4 C05")
+
 NOT_YET = {}
 
 
